@@ -49,6 +49,8 @@ type fifoParams struct {
 	buf     uint
 	window  int
 	threads int // 1: one client thread; 2: second call issued by another thread after the first returned
+	early   bool // every handler calls Release at once and keeps working (the pattern doc/ordering.md describes)
+	noSlow  bool // no straggler: every handler returns at once
 }
 
 func (p fifoParams) name() string {
@@ -56,7 +58,14 @@ func (p fifoParams) name() string {
 	for _, c := range p.seq {
 		s = append(s, c.String())
 	}
-	return fmt.Sprintf("fifo/%s/buf=%d/win=%d/threads=%d", strings.Join(s, ","), p.buf, p.window, p.threads)
+	e := ""
+	if p.early {
+		e = "/early-release"
+	}
+	if p.noSlow {
+		e += "/no-straggler"
+	}
+	return fmt.Sprintf("fifo/%s/buf=%d/win=%d/threads=%d%s", strings.Join(s, ","), p.buf, p.window, p.threads, e)
 }
 
 func fifoScenario(p fifoParams) func() {
@@ -67,7 +76,15 @@ func fifoScenario(p fifoParams) func() {
 		}
 		first2 := true
 		w.Handle = func(h *world.HCtx) world.Reply {
-			if h.Node == 2 && first2 {
+			if p.early {
+				h.Release()
+				if h.Tok == 1 && p.noSlow {
+					// keeps working after the early release; the script lets it return once the
+					// server has moved on, and only then are the remaining calls issued
+					w.Wait("early-done")
+				}
+			}
+			if h.Node == 2 && first2 && !p.noSlow {
 				first2 = false
 				w.Wait("slow") // straggler: later requests to node 2 queue behind this handler
 			}
@@ -85,7 +102,10 @@ func fifoScenario(p fifoParams) func() {
 		finished := 0
 		if p.threads == 1 {
 			mc.GoNamed("client", func() {
-				for _, c := range calls {
+				for i, c := range calls {
+					if i == 1 && p.early && p.noSlow {
+						w.Wait("phase2")
+					}
 					w.Invoke(c)
 				}
 				finished = len(calls)
@@ -106,6 +126,12 @@ func fifoScenario(p fifoParams) func() {
 			})
 		}
 		mc.Quiesce()
+		if p.early && p.noSlow {
+			w.Open("early-done")
+			mc.Quiesce()
+			w.Open("phase2")
+			mc.Quiesce()
+		}
 		w.Open("slow")
 		mc.Quiesce()
 		if finished != len(calls) {
@@ -195,6 +221,21 @@ func fifoInstances(tier string) []Instance {
 				}
 			}
 			add(fifoParams{seq: []callSpec{a, b}, buf: 0, window: 3, threads: 2}, 1)
+		}
+	}
+	// handlers that release early and keep working: pairs and triples over a reduced alphabet
+	redE := []callSpec{{kind: "QuorumCallAsync"}, {kind: "Multicast", nsw: true}, {kind: "Unicast", node: 2, nsw: true}, {kind: "QuorumCall"}}
+	for _, a := range redE {
+		for _, b := range redE {
+			add(fifoParams{seq: []callSpec{a, b}, buf: 0, window: 3, threads: 1, early: true}, 1)
+			for _, c := range redE {
+				bound := 1
+				if thorough(tier) {
+					bound = 2
+				}
+				add(fifoParams{seq: []callSpec{a, b, c}, buf: 1, window: 3, threads: 1, early: true}, bound)
+				add(fifoParams{seq: []callSpec{a, b, c}, buf: 1, window: 3, threads: 1, early: true, noSlow: true}, bound)
+			}
 		}
 	}
 	// triples over a reduced alphabet (one representative per runtime path)
